@@ -22,6 +22,8 @@ func main() {
 		runC03(ev.Parse("model_checking"))
 	case "C04":
 		runC04(ev.Parse("model_checking"))
+	case "C13":
+		runC13(ev.Parse("model_checking"))
 	default:
 		fmt.Println("kvmc: unknown property", os.Args[1])
 		os.Exit(2)
